@@ -28,8 +28,9 @@ type muxModel struct {
 // muxModels installs the lock-aware filter and select resolution for every
 // MultiplexingListener seen at an H2 point.
 type muxModels struct {
-	r *kernel.Run
-	m map[*nodenet.MultiplexingListener]*muxModel
+	r          *kernel.Run
+	m          map[*nodenet.MultiplexingListener]*muxModel
+	allCtxDone bool // the parent context of every listener was cancelled by the harness
 }
 
 func installMuxHooks(r *kernel.Run) *muxModels {
@@ -50,7 +51,7 @@ func installMuxHooks(r *kernel.Run) *muxModels {
 			return 0
 		}
 		x := get(l)
-		if x.ctxDone && (x.blockedSenders > 0 || x.chanClosed) {
+		if (x.ctxDone || mm.allCtxDone) && (x.blockedSenders > 0 || x.chanClosed) {
 			r.Count("probe.select_both_ready", 1)
 			return 1
 		}
